@@ -1,6 +1,7 @@
 import Goyang.Model.Proto
 import Goyang.Model.Identity
 import Goyang.Spec.Identity
+import Goyang.Spec.IdentityReport
 /-
 Driver for identity resolution (C11).
 
@@ -14,8 +15,13 @@ Driver for identity resolution (C11).
          error = file:line:col:class
       -> linkfail <error>*              an include/import did not resolve (outside the C11 model)
       -> loaderr | fuel | outsideModel
-  spec.ident <files in wire format> | <item>* ; <number of errors Go reported>
+  spec.ident <files in wire format> | <item>* ; <error>*        (the errors Go reported, as above)
       -> holds | violates <hex reason> | outside <hex reason>
+         errors: Spec.Identity.judge on their number, then Spec.Identity.judgeReports (Spec/IdentityReport.lean): every
+         derivation cycle and every undefined base has to be named by an error of its own
+         one statement per vertex: judged over Spec.Identity.graph; several (duplicates, several revisions of a
+         module): over Spec.Identity.survivorGraph and the items of the surviving statements (both always answer:
+         Props.C11.specification_answers; they agree up to order without duplicates: survivor_graph_is_graph)
 -/
 open Goyang Goyang.Proto Goyang.Model
 
@@ -105,8 +111,20 @@ def parseLeafItem (s : String) : Option (String × List ((String × String) × L
     | _ => none
   else none
 
+/-- `file:line:col:class` (`-` = no file) → error; the file name may hold colons. -/
+def parseErr (s : String) : Option Err :=
+  match (s.splitOn ":").reverse with
+  | cls :: col :: line :: f :: fs =>
+    match line.toNat?, col.toNat? with
+    | some l, some c =>
+      let file := ":".intercalate (f :: fs).reverse
+      some { file := if file == "-" then "" else file, line := l, col := c, cls := cls }
+    | _, _ => none
+  | _ => none
+
 open Goyang.Spec.Identity in
-def runSpec (files : List SrcFile) (items : List String) (nErrors : Nat) : String :=
+def runSpec (files : List SrcFile) (items : List String) (errs : List Err) : String :=
+  let nErrors := errs.length
   match loadAll files with
   | .error _ => "outside " ++ encStr "the texts do not load"
   | .ok r =>
@@ -142,8 +160,16 @@ def runSpec (files : List SrcFile) (items : List String) (nErrors : Nat) : Strin
         (want, match want with
           | some w => if seen.contains w then some w else seen.head?
           | none => seen.head?)
+      -- the identity statements that make up the vertices of `G`
+      let stmts : List (Vertex × Mod × Stmt) :=
+        if dup then sv else ps.flatMap fun m => (vertexStmts r m).map fun (v, s) => (v, m, s)
       match judge G vals rfs nErrors with
-      | .holds => "holds"
+      | .holds =>
+        -- which errors: one for every derivation cycle, one for every undefined base
+        match judgeReports r G stmts errs with
+        | .holds => "holds"
+        | .violates why => "violates " ++ encStr why
+        | .outside why => "outside " ++ encStr why
       | .violates why => "violates " ++ encStr why
       | .outside why => "outside " ++ encStr why
     | _, _, _, _ => "outside " ++ encStr "closure did not finish"
@@ -164,11 +190,9 @@ def handle : List String → String
   | "spec.ident" :: rest =>
     let (wire, tail) := splitAt "|" rest
     let (itemsX, errsX) := splitAt ";" tail
-    match Wire.decFiles (wire.length + 1) wire, decAll itemsX, errsX with
-    | some (files, []), some items, [n] =>
-      match decNat n with
-      | some n => runSpec files items n
-      | none => "bad-op"
+    match Wire.decFiles (wire.length + 1) wire, decAll itemsX, (decAll errsX).bind (·.mapM parseErr) with
+    | some (files, []), some items, some errs => runSpec files items errs
+    | some _, some _, none => "bad-op"
     | _, _, _ => "outsideModel"
   | _ => "bad-op"
 
